@@ -991,6 +991,14 @@ def random_conveniences(ctx, spec, v, g, r, exact, reqs, pending):
             # ---- the property on the result
             rop = {'op': {'random_spatial_crop': 'getitem', 'random_flip_spatial': 'flip', 'random_permute_spatial_axes': 'permute'}[name]}
             oracle_step(ctx, case, v, res, rop, exact, name)
+            if name != 'random_spatial_crop':
+                # axes that are not listed keep their place, size and affine column (flip: also their direction)
+                for d in range(3):
+                    if d not in mreq['axes'] and (int(res.spatial_shape[d]) != int(v.spatial_shape[d])
+                                                  or not np.array_equal(res.affine[:3, d], v.affine[:3, d])):
+                        ctx.fail(case, {'what': f'{name} touched axis {d}, which is not listed in `axes`', 'axes': mreq['axes'],
+                                        'drawn': log}, site=name)
+                        break
             if name == 'random_spatial_crop' and list(res.spatial_shape)[:len(mreq['crop'])] != list(mreq['crop'])[:3]:
                 ctx.fail(case, {'what': 'random_spatial_crop: result does not have the requested shape',
                                 'got': list(res.spatial_shape), 'want': mreq['crop']}, site=name)
@@ -1087,6 +1095,28 @@ def accessors_check(ctx, spec, obj, who, exact, reqs, pending):
     det = float(np.linalg.det(cols))
     if (obj.handedness.value == 'LEFT_HANDED') != (det < 0):
         ctx.fail(case, {'what': 'handedness does not agree with the sign of the determinant', 'det': det}, site=site)
+    # the constructor from components takes the accessors back to the same affine (position, or the centre instead; the closest
+    # patient orientation instead of the direction when the axes lie along the patient axes)
+    from highdicom.volume import VolumeGeometry
+    scale = max(1.0, float(np.abs(a[:3]).max()))
+    variants = [('position+direction', {'position': obj.position, 'direction': obj.direction}),
+                ('center+direction', {'center_position': obj.center_position, 'direction': obj.direction}),
+                ('position+flat-direction', {'position': list(obj.position), 'direction': np.asarray(obj.direction).reshape(-1).tolist()})]
+    if exact and str(obj.coordinate_system.value) == 'PATIENT':
+        variants.append(('position+orientation', {'position': obj.position,
+                                                  'patient_orientation': ''.join(x.value for x in obj.get_closest_patient_orientation())}))
+    for tag, kw in variants:
+        try:
+            rb = VolumeGeometry.from_components(spatial_shape=shp, spacing=obj.spacing, coordinate_system=obj.coordinate_system,
+                                                frame_of_reference_uid=obj.frame_of_reference_uid, **kw)
+        except Exception as e:  # noqa: BLE001
+            ctx.fail(case, {'what': f'from_components({tag}) refused the accessors of a valid object: {type(e).__name__}: {e}'[:300]},
+                     site='from_components')
+            continue
+        ctx.hist('from_components', tag)
+        if not np.allclose(rb.affine, a, rtol=0, atol=scale * 2.0 ** -36) or tuple(rb.spatial_shape) != tuple(shp):
+            ctx.fail(case, {'what': f'from_components({tag}) of the accessors does not give the affine back',
+                            'got': rb.affine.tolist(), 'want': a.tolist()}, site='from_components')
     nc = got['nearest_center_indices']
     if any(not (0 <= k < n) for k, n in zip(nc, shp)):
         ctx.fail(case, {'what': 'nearest_center_indices is not a voxel', 'got': nc, 'shape': shp}, site=site)
@@ -1166,21 +1196,23 @@ def inverse_pairs(ctx, spec, v, g, r, exact):
         ctx.fail(case, {'what': 'an operation followed by its inverse does not give the geometry back'}, site='inverse_pair/geometry')
 
 
-def foreign_index_items(ctx, spec, v, g, r):
+def foreign_index_items(ctx, spec, v, g, r, reqs, pending):
     """Index items that are neither int nor slice (None, Ellipsis, numpy integer, float, list): refused with TypeError by
     volume and geometry alike, nothing changes (the source only knows int and slice; bool is an int)."""
     n = list(v.spatial_shape)
     item = r.choice([None, Ellipsis, np.int64(0), 1.0, [0], np.uint8(0), 'a'])
     form = r.choice(['bare', 'first', 'second', 'last'])
+    k0 = r.choice([0, 0, 0, n[0], -n[0] - 1])          # an int before the foreign item, sometimes out of range (refused first)
+    F_ = {'foreign': True}
     if form == 'bare':
-        idx = item
+        idx, mitems = item, [F_]
     elif form == 'first':
-        idx = (item, slice(None))
+        idx, mitems = (item, slice(None)), [F_, {'slice': [None, None, None]}]
     elif form == 'second':
-        idx = (slice(None), item)
+        idx, mitems = (slice(None), item), [{'slice': [None, None, None]}, F_]
     else:
-        idx = (0, slice(0, 1), item)
-    case = {'hist': spec['idx'], 'step': 'end', 'op': {'op': 'getitem_foreign', 'item': repr(item), 'form': form}}
+        idx, mitems = (k0, slice(0, 1), item), [{'int': k0}, {'slice': [0, 1, None]}, F_]
+    case = {'hist': spec['idx'], 'step': 'end', 'op': {'op': 'getitem_foreign', 'item': repr(item), 'form': form, 'k0': k0}}
     before = _snapshot(v)
     outs = []
     for o in (v, g):
@@ -1197,6 +1229,11 @@ def foreign_index_items(ctx, spec, v, g, r):
         ctx.fail(case, {'what': 'an index item that is neither int nor slice was accepted', 'shape': n}, site='getitem')
     if _snapshot(v) != before:
         ctx.fail(case, {'what': 'a refused index modified the volume'}, site='getitem')
+    m = dict(_geom_req(g))
+    m['items'] = mitems
+    reqs.append(('getitemItems', m))
+    pending.append({'extra': 'foreign', 'case': case, 'impl': {'err': {'TypeError': 'type', 'IndexError': 'index', 'ValueError': 'value'}.get(outs[1], 'other')}
+                    if outs[1] != 'ok' else {'ok': True}})
 
 
 def end_of_history(ctx, spec, v, g, r, exact, reqs, pending):
@@ -1210,13 +1247,18 @@ def end_of_history(ctx, spec, v, g, r, exact, reqs, pending):
     if r.random() < 0.6:
         inverse_pairs(ctx, spec, v, g, r, exact)
     if r.random() < 0.15:
-        foreign_index_items(ctx, spec, v, g, r)
+        foreign_index_items(ctx, spec, v, g, r, reqs, pending)
 
 
 def compare_extra(ctx, pend, ans):
     case = pend['case']
     if 'proto_err' in ans:
         ctx.disagree('L0', case, 'n/a', ans, 'model protocol error')
+        return
+    if pend['extra'] == 'foreign':
+        impl = pend['impl']
+        if ('err' in impl) != ('err' in ans) or ('err' in impl and impl['err'] != ans['err']):
+            ctx.disagree('L0', case, impl, ans, 'refusal of a foreign index item (kind of error included)')
         return
     if pend['extra'] == 'random':
         impl = pend['impl']
